@@ -522,6 +522,8 @@ impl<'a> Constraint<'a> {
                     "SUCCEEDS" => TextSelectionOperator::succeeds(),
                     "SAMEBEGIN" => TextSelectionOperator::samebegin(),
                     "SAMEEND" => TextSelectionOperator::sameend(),
+                    "SAMERANGE" => TextSelectionOperator::samerange(),
+                    "INSET" => TextSelectionOperator::inset(),
                     "BEFORE" => TextSelectionOperator::before(),
                     "AFTER" => TextSelectionOperator::after(),
                     _ => {
